@@ -6,7 +6,8 @@ From Coercion.Base Require Import Plan.
 From Coercion.Query Require Import Rows Query.
 
 (* the projection of a stored plan that C15 talks about *)
-Record pinfo := { pi_group : N; pi_name : N; pi_descr : N; pi_submit : Z; pi_status : N }.
+Record pinfo := { pi_group : N; pi_name : N; pi_descr : N; pi_submit : Z; pi_status : N;
+                  pi_start : Z; pi_end : Z }.
 
 Definition store := list (N * pinfo).
 
@@ -30,20 +31,34 @@ Fixpoint del (id : N) (sp : store) : store :=
   | (k, x) :: r => if N.eqb k id then del id r else (k, x) :: del id r
   end.
 
-(* The two back ends document different behaviour for two details; the specification takes them as
-   parameters: sqlite stores a submit time before the Unix epoch as the epoch and UpdatePlan does
-   not store SubmitTime; cosmosdb stores both as given. *)
+(* The two back ends document different behaviour for three details; the specification takes them as
+   parameters: sqlite stores a submit time before the Unix epoch as the epoch, UpdatePlan does not store
+   SubmitTime, and its time codec keeps instants after the Unix epoch and turns every other one into the
+   zero time (DESIGN section 11, pinned for C13); cosmosdb stores all of them as given. *)
 Inductive backend := Sqlite | Cosmos.
+
+Definition sq_time (t : Z) : Z := if Z.ltb 0 t then t else zero_time_ns.
+Definition stored_time (be : backend) (t : Z) : Z := match be with Sqlite => sq_time t | Cosmos => t end.
+
+(* what sqlite can represent: the zero time, or an instant whose nanoseconds fit int64 (1678..2262) *)
+Definition representable (t : Z) : Prop := t = zero_time_ns \/ (- 2 ^ 63 <= t < 2 ^ 63)%Z.
+Definition op_representable (o : op) : Prop :=
+  match o with
+  | OCreate r => representable (r_start r) /\ representable (r_end r)
+  | OUpdate _ _ _ start fin => representable start /\ representable fin
+  | ODelete _ => True
+  end.
 
 Definition info_of_create (be : backend) (r : row) : pinfo :=
   {| pi_group := r_group r; pi_name := r_name r; pi_descr := r_descr r;
      pi_submit := match be with Sqlite => Z.max 0 (r_submit r) | Cosmos => r_submit r end;
-     pi_status := r_status r |}.
+     pi_status := r_status r;
+     pi_start := stored_time be (r_start r); pi_end := stored_time be (r_end r) |}.
 
-Definition info_update (be : backend) (st : N) (sub : Z) (v : pinfo) : pinfo :=
+Definition info_update (be : backend) (st : N) (sub start fin : Z) (v : pinfo) : pinfo :=
   {| pi_group := pi_group v; pi_name := pi_name v; pi_descr := pi_descr v;
      pi_submit := match be with Sqlite => pi_submit v | Cosmos => sub end;
-     pi_status := st |}.
+     pi_status := st; pi_start := stored_time be start; pi_end := stored_time be fin |}.
 
 (* Create of uuid.Nil or of an existing id is rejected; Update / Delete of an unknown id change nothing *)
 Definition spec_step (be : backend) (sp : store) (o : op) : store :=
@@ -53,8 +68,9 @@ Definition spec_step (be : backend) (sp : store) (o : op) : store :=
                       | Some _ => sp
                       | None => put (r_id r) (info_of_create be r) sp
                       end
-  | OUpdate id st sub => match get sp id with
-                         | Some v => put id (info_update be st sub v) sp
+  | OUpdate id st sub start fin =>
+                         match get sp id with
+                         | Some v => put id (info_update be st sub start fin v) sp
                          | None => sp
                          end
   | ODelete id => del id sp
@@ -74,7 +90,8 @@ Definition matches (f : filters) (id : N) (v : pinfo) : Prop :=
 
 Definition result_of (kv : N * pinfo) : result :=
   {| x_id := fst kv; x_group := pi_group (snd kv); x_name := pi_name (snd kv); x_descr := pi_descr (snd kv);
-     x_submit := pi_submit (snd kv); x_status := pi_status (snd kv) |}.
+     x_submit := pi_submit (snd kv); x_status := pi_status (snd kv);
+     x_start := pi_start (snd kv); x_end := pi_end (snd kv) |}.
 
 (* newest submission first; equal submit times in any order *)
 Definition newest_first (xs : list result) : Prop :=
